@@ -42,7 +42,7 @@
 (*             re-definition before it ran, all of it: twin2).  Any third  *)
 (*             state is a partial effect.                                  *)
 (***************************************************************************)
-EXTENDS Integers, Sequences, Json, IOUtils, TLC
+EXTENDS Integers, Sequences, Json, IOUtils, TLC, SequencesExt
 
 ASSUME TLCSet(11, ndJsonDeserialize(IOEnv.VERIF_TRACE))
 Cases == TLCGet(11)
@@ -65,6 +65,16 @@ MustFailV ==
 MayFailV ==
     {"malformed-" \o Two(i) : i \in 0..99}
     \cup {"valueless-" \o ToString(i) \o "-" \o ToString(j) : i \in 0..9, j \in 0..19}
+
+DevList == "," \o (IF "VERIF_DEVS" \in DOMAIN IOEnv THEN IOEnv.VERIF_DEVS ELSE "") \o ","
+DevOn(d) == ReplaceFirstSubSeq("", "," \o d \o ",", DevList) # DevList
+(* named deviation "nested-reject-keeps-macros": a text rejected by the compiler on a nested route  *)
+(* (call argument, eval, lazy argument, sourced file) leaves the macros it defined installed: the   *)
+(* answers are those of twin2, which evaluated the set-up and the valid re-definition of the macro  *)
+RouteV == {"route-arg", "route-eval", "route-fn-arg", "route-lazy", "route-source"}
+KeepsMacros(c) == /\ DevOn("nested-reject-keeps-macros")
+                  /\ c.variant \in RouteV /\ c.def \in {"defmac", "defmac-nested"}
+                  /\ c.a = c.twin2
 
 VARIABLES ci, phase, obs, verdict
 tvars == <<ci, phase, obs, verdict>>
@@ -101,7 +111,10 @@ FirstDiff(a, b) == IF Len(a) # Len(b) THEN 0
 Probe ==
     /\ verdict = "run" /\ phase = "rejected"
     /\ LET d == FirstDiff(C.a, obs) IN
-       IF d # -1 /\ ~(C.variant \in MayFailV /\ C.a = C.twin2) THEN Bad("state-changed", d)
+       IF d # -1 /\ KeepsMacros(C)
+       THEN /\ verdict' = "known:nested-reject-keeps-macros" /\ UNCHANGED <<ci, phase, obs>>
+            /\ PrintT(<<"VERDICT", C.id, "known:nested-reject-keeps-macros", d>>)
+       ELSE IF d # -1 /\ ~(C.variant \in MayFailV /\ C.a = C.twin2) THEN Bad("state-changed", d)
        ELSE IF C.ua # UsableAnswer THEN Bad("unusable", 0)
        ELSE /\ verdict' = "ok" /\ UNCHANGED <<ci, phase, obs>>
             /\ PrintT(<<"VERDICT", C.id, "ok", 0>>)
